@@ -189,12 +189,18 @@ type ImageSel struct {
 }
 
 type Knobs struct {
-	CacheCap    int   `json:"cache_cap"`              // 0 = default (10000)
-	LRUReverse  bool  `json:"lru_reverse,omitempty"`  // order in which a flush leaves its pages in the recency list
-	ForceFlush  bool  `json:"force_flush,omitempty"`  // enforce C16's precondition: tick at a boundary when dirty pages near capacity
-	FlushMargin int   `json:"flush_margin,omitempty"` // ... i.e. when dirty >= capacity - margin (0 = 10)
-	CacheOnly   bool  `json:"cache_only,omitempty"`
-	PressureAt  int64 `json:"pressure_at,omitempty"` // main timeline: at this cache event every other clean resident page is marked dirty (cache pressure fault)
+	CacheCap    int  `json:"cache_cap"`              // 0 = default (10000)
+	LRUReverse  bool `json:"lru_reverse,omitempty"`  // order in which a flush leaves its pages in the recency list
+	ForceFlush  bool `json:"force_flush,omitempty"`  // enforce C16's precondition: tick at a boundary when dirty pages near capacity
+	FlushMargin int  `json:"flush_margin,omitempty"` // ... i.e. when dirty >= capacity - margin (0 = 10)
+	CacheOnly   bool `json:"cache_only,omitempty"`
+	// LazyWake: a flusher that waited for the lock is not run the moment the
+	// statement lets go of it; like a goroutine that was made runnable but got no
+	// CPU yet, it stays behind until the session next needs the store lock, closes
+	// the store, or virtual time passes. Crash images taken in between see an
+	// acknowledged statement and a flush that has not started.
+	LazyWake   bool  `json:"lazy_wake,omitempty"`
+	PressureAt int64 `json:"pressure_at,omitempty"` // main timeline: at this cache event every other clean resident page is marked dirty (cache pressure fault)
 	// BiasKey / BiasLSN: right after CREATE DATABASE the counters in the file
 	// header are raised to these values (as if a long history lay behind), so
 	// that row ids and LSNs cross 2^8, 2^16, 2^24, 2^32 boundaries within a short run
